@@ -100,6 +100,32 @@ pub fn lanes() -> Vec<Lane> {
         thorough: 1_000_000,
     });
     v.push(Lane {
+        prop: "C03",
+        family: "PAGED",
+        gen: gen::gen_paged,
+        cfg: cfg_default,
+        check: oracle::check_c03_paged,
+        nontrivial: paged_nontrivial,
+        rule: "PAGED scenarios under the response model: the final result of a paged search carries the code, text and the other response controls of the last page exactly as the server encoded them, in the server's order (0-4 other controls, the paging control anywhere among them); non-trivial = at least two pages were fetched; distinct = distinct history-shape hash",
+        runner: None,
+        expand: None,
+        quick: 40_000,
+        thorough: 1_000_000,
+    });
+    v.push(Lane {
+        prop: "C10",
+        family: "PAGED",
+        gen: gen::gen_paged,
+        cfg: cfg_default,
+        check: oracle::check_c10_paged,
+        nontrivial: paged_nontrivial,
+        rule: "PAGED scenarios under the stream model: a stream behind the PagedResults adapter yields the server's entries in order, then Ok(None); finish() returns the server's final result with its controls (88 if finished early, 80 the second time); non-trivial = at least two pages were fetched; distinct = distinct history-shape hash",
+        runner: None,
+        expand: None,
+        quick: 40_000,
+        thorough: 1_000_000,
+    });
+    v.push(Lane {
         prop: "C04",
         family: "REALIO",
         gen: gen::gen_realio,
